@@ -3,6 +3,7 @@ import Proofs.C05.Tx
 import Proofs.C05.PsbtMap
 import Proofs.C05.Misc
 import Proofs.C05.P2p
+import Proofs.C05.PsbtTyped
 /-!
 # C05 — wire formats are canonical: parse and serialize are mutually inverse
 
@@ -313,6 +314,76 @@ example : recLe inRank ([3], [0, 0, 0, 0]) ([6, 1], [8]) = true ∧ recLe inRank
     ∧ recLe inRank ([6, 2], [7]) ([0xfc, 9], [5]) = true ∧ recLe inRank ([0xfc, 9], [5]) ([10, 1], []) = true := by
   decide
 example : parseMap [1, 3, 1, 0, 1, 3, 1, 1, 0] = .error .dupKey := by decide
+
+/-! ## PSBT typed layer (input maps): exactly what re-serialization normalises away -/
+
+/-- kind 1, "empty value": a whole-value field (key = the type byte alone) that is not in
+    `_PRESENT_IF_NOT_NONE` and not a utxo, whose decoded value is falsy -/
+def EmptyValueKind (r : Rec) : Prop := isWholeRec r = true ∧ falsyIn (tyOf r.1) r.2 = true
+/-- kind 2, "finalized-input field": the input carries a truthy final scriptSig / final witness and the
+    record's field is in `_DROPPED_ONCE_FINALIZED` -/
+def FinalizerFieldKind (recs : List Rec) (r : Rec) : Prop :=
+  finalized recs = true ∧ knownTy r.1 = true ∧
+    Gen.Wire.PSBT_IN_DROPPED_ONCE_FINALIZED.contains (tyOf r.1) = true
+
+/-- a falsy value is the empty octet string, or -- for the final witness field -- the empty stack `00` -/
+theorem empty_value_kind_explicit (r : Rec) (h : EmptyValueKind r) :
+    r.2 = [] ∨ (tyOf r.1 = Gen.Wire.PSBT_IN_FINAL_SCRIPTWITNESS ∧ r.2 = [0]) := by
+  have h2 := h.2
+  unfold falsyIn at h2
+  repeat' split at h2
+  · cases h2
+  · cases h2
+  · rename_i e; right; exact ⟨e, by simpa using h2⟩
+  · left; simpa using h2
+
+/-- THE characterisation: whenever `PsbtIn.parse(b).serialize()` answers, the records of its answer are
+    exactly the records of `b` that are of neither kind.  So every key-value pair (unknown ones included)
+    is kept except an empty-valued whole field and the finalizer-consumed fields of a finalized input;
+    any other dropped, altered or invented pair would contradict this. -/
+theorem psbtin_reserialize_keeps_all_but (ver : Nat) (b out : Bytes) (h : reserIn ver b = .ok out) :
+    ∃ recs recs', parseMap b = .ok (recs, []) ∧ parseMap out = .ok (recs', []) ∧
+      ∀ r, r ∈ recs' ↔ r ∈ recs ∧ ¬ EmptyValueKind r ∧ ¬ FinalizerFieldKind recs r := by
+  obtain ⟨recs, hp, _, rfl⟩ := reserIn_ok ver b out h
+  have ⟨hv, _⟩ := serMap_parseMap _ _ _ hp
+  refine ⟨recs, _, hp, parseMap_sorted_kept recs hv, ?_⟩
+  intro r
+  rw [mem_sorted_kept]
+  simp only [droppedIn, Bool.or_eq_false_iff, Bool.and_eq_false_iff, EmptyValueKind, FinalizerFieldKind,
+    not_and, Bool.not_eq_true]
+  constructor
+  · rintro ⟨hr, h1, h2⟩
+    refine ⟨hr, ?_, ?_⟩
+    · intro hw; rcases h1 with h1 | h1
+      · rw [hw] at h1; cases h1
+      · exact h1
+    · intro hf hk
+      rcases h2 with (h2 | h2) | h2
+      · rw [hf] at h2; cases h2
+      · rw [hk] at h2; cases h2
+      · exact h2
+  · rintro ⟨hr, h1, h2⟩
+    refine ⟨hr, ?_, ?_⟩
+    · cases hw : isWholeRec r
+      · left; rfl
+      · right; exact h1 hw
+    · cases hf : finalized recs
+      · left; left; rfl
+      · cases hk : knownTy r.1
+        · left; right; rfl
+        · right; exact h2 hf hk
+
+/-- … and the answer is a fixed point: parsing and serializing it again gives the same octets -/
+theorem psbtin_reserialize_fixed_point (ver : Nat) (b out : Bytes) (h : reserIn ver b = .ok out) :
+    reserIn ver out = .ok out := reserIn_fixed ver b out h
+
+-- an explicit sighash type of zero is a record (kept); an empty redeem script is normalised away; a
+-- partial signature goes once the input is finalized; an unknown record stays even then
+example : droppedIn false ([3], [0, 0, 0, 0]) = false ∧ droppedIn false ([4], []) = true
+    ∧ droppedIn false ([8], [0]) = true ∧ droppedIn true ([2, 9], [1]) = true
+    ∧ droppedIn false ([2, 9], [1]) = false ∧ droppedIn true ([0xfc, 1], []) = false := by decide
+example : finalized [([7], [0x51])] = true ∧ finalized [([7], [])] = false ∧ finalized [([8], [0])] = false := by
+  decide
 
 -- non-vacuity (CompactSize): the hypotheses are met by concrete non-trivial values on each width
 example : Gen.VarInt.serialize 252 = .ok [252] := by decide
